@@ -7,9 +7,10 @@
 -/
 import Honeycomb.Gen.Links3
 import Honeycomb.Model.Ops3
+import Honeycomb.Props.C02
 
 namespace HC.GenTie
-open HC
+open HC HC.C02
 variable {X : Type}
 
 /-- operand of a generated instruction: parameters, the null dart, bound variables -/
@@ -69,6 +70,15 @@ theorem C02_gen_oneUnlink3 (l : Nat) : interpLink (X := X) l 0 16 [] Gen.oneUnli
   simp only [Gen.oneUnlink3, interpLink, coreCall, linkArg, oneUnlink3, List.drop, List.getD, List.nil_append,
     List.cons_append, Prog.bind_eq, Prog.pure_eq, bind_unit]
   rfl
+
+/-- **C02 stated on the translated code**: every successful run of the translated `CMap3::one_link` /
+    `one_unlink` on a well-formed 3-map with in-use arguments ends in a well-formed map, and in a mirrored one
+    if it started from a mirrored one -/
+theorem C02_gen_one_links_preserve_WF_and_Mirror (l r : Nat) :
+    Safe (fun m : Map X => InUse m l ∧ InUse m r) (interpLink (X := X) l r 16 [] Gen.oneLink3) ∧
+    Safe (fun m : Map X => InUse m l) (interpLink (X := X) l 0 16 [] Gen.oneUnlink3) := by
+  rw [C02_gen_oneLink3, C02_gen_oneUnlink3]
+  exact ⟨safe_oneLink3 l r, safe_oneUnlink3 l⟩
 
 /-- a list the interpreter does not understand is a panic, not a silent success -/
 example (l r : Nat) : interpLink (X := X) l r 4 [] [(9, [])] = Prog.panic := rfl
